@@ -14,6 +14,7 @@ pub mod c11;
 pub mod c12;
 pub mod c13;
 pub mod c14;
+pub mod c15;
 pub mod c16;
 
 pub fn all() -> Vec<&'static dyn Property> {
@@ -32,6 +33,7 @@ pub fn all() -> Vec<&'static dyn Property> {
         &c12::C12,
         &c13::C13,
         &c14::C14,
+        &c15::C15,
         &c16::C16,
     ]
 }
